@@ -414,7 +414,7 @@ def judge_obs(ctx, files, props, timeout=1500):
     for rec in recs:
         for v in rec.get("viol", []):
             pid = v["c"].split(":")[0]
-            if v["c"] == "C01:NoSanitizerReport" and re.search(r"AddressSanitizer|runtime error|recorder died|double-free", str(v.get("d"))) and "C01" not in props and "C18" not in props:
+            if v["c"] == "C01:NoSanitizerReport" and re.search(r"AddressSanitizer|runtime error|recorder died|double-free", str(v.get("d"))) and "exit 124" not in str(v.get("d")) and "C01" not in props and "C18" not in props:
                 # the recorder died inside this execution (sanitizer abort / crash): nothing after that point was observed, so the execution
                 # cannot count as one on which the property held; reported under the property being checked
                 v = dict(v, c=props[0] + ":ExecutionObserved"); pid = props[0]
